@@ -392,6 +392,37 @@ pub fn set_verbose_panics(v: bool) {
     VERBOSE_PANICS.store(v, Ordering::Relaxed);
 }
 
+/// Installs only the quiet panic hook (for executors that do not use the
+/// shuttle engine). Idempotent.
+pub fn install_panic_hook() {
+    static INIT: std::sync::Once = std::sync::Once::new();
+    INIT.call_once(set_quiet_hook);
+}
+
+fn set_quiet_hook() {
+    std::panic::set_hook(Box::new(|info| {
+        if info.payload().is::<AbortRun>() {
+            return;
+        }
+        let msg = format!(
+            "{} at {}",
+            panic_message(info.payload()),
+            info.location()
+                .map(|l| format!("{}:{}", l.file(), l.line()))
+                .unwrap_or_default()
+        );
+        if VERBOSE_PANICS.load(Ordering::Relaxed) {
+            eprintln!("[jiffsim] panic: {msg}");
+        }
+        // `try_with`/`try_borrow_mut`: never panic inside the hook.
+        let _ = RT.try_with(|rt| {
+            if let Ok(mut rt) = rt.try_borrow_mut() {
+                rt.last_panic = Some(msg);
+            }
+        });
+    }));
+}
+
 /// Installs jiff's hooks and our panic hook. Idempotent.
 pub fn init_once() {
     static INIT: std::sync::Once = std::sync::Once::new();
@@ -408,27 +439,7 @@ pub fn init_once() {
         cfg.failure_persistence = shuttle::FailurePersistence::None;
         cfg.silence_warnings = true;
         shuttle::Runner::new(SimSched { pending: true }, cfg).run(|| {});
-        std::panic::set_hook(Box::new(|info| {
-            if info.payload().is::<AbortRun>() {
-                return;
-            }
-            let msg = format!(
-                "{} at {}",
-                panic_message(info.payload()),
-                info.location()
-                    .map(|l| format!("{}:{}", l.file(), l.line()))
-                    .unwrap_or_default()
-            );
-            if VERBOSE_PANICS.load(Ordering::Relaxed) {
-                eprintln!("[jiffsim] panic: {msg}");
-            }
-            // `try_with`/`try_borrow_mut`: never panic inside the hook.
-            let _ = RT.try_with(|rt| {
-                if let Ok(mut rt) = rt.try_borrow_mut() {
-                    rt.last_panic = Some(msg);
-                }
-            });
-        }));
+        set_quiet_hook();
     });
 }
 
